@@ -3,6 +3,7 @@ import re
 from ..core import norm, relloc, live, calls, evs, Broken, value_origin, Tracer, fmt_trace, rooted, has_back_edge, efield
 from .. import locks
 from ..rules import *
+from .. import atomic
 from .tables import GUARDED
 
 EXPLANATION = ('Static analysis of the hand-over discipline of queue<T>: on every CFG path of every instantiation (including queue<void> and the single-item queue) a pushed item '
@@ -33,6 +34,9 @@ def run(ctx, db, tier):
     pop_linear(ctx, db, 'C09.item-linear-pop', 'cocls::queue::pop')
     unblock(ctx, db, 'C09.unblock-pop', 'cocls::queue::unblock_pop', WAITERS)
     nonempty(ctx, db, 'C09.never-empty-access', ['cocls::queue'])
+    single_slot(ctx, db, 'C09.single-slot-refuses')
+    from . import C02
+    atomic.check_roles(ctx, db, 'C09.handed-item-visible', only_functions=C02.RESULT_VISIBILITY_FUNCTIONS, floor=8)
     resolve_outside_lock(ctx, db, 'C09.resolve-outside-lock', ['cocls::queue::push', 'cocls::queue::unblock_pop'])
     locks.check_guarded(ctx, db, 'C09.locks', {k: v for k, v in GUARDED.items() if k.startswith('cocls::queue::')}, ['cocls::queue'], per_instance=True, floor=5)
     forward_once(ctx, db, 'C09.forward-once')
@@ -170,6 +174,8 @@ def pop_linear(ctx, db, rid, name, refill=False):
                     bad = bad or ('the delivered value is not the head of the item queue', tr)
                 if ifront and ipop and tr.index(ifront[0]) > tr.index(ipop[0]):
                     bad = bad or ('the head is removed before it is read', tr)
+                if not void and len(res) == 1 and len(ipop) == 1 and tr.index(ipop[0]) < tr.index(res[0]):
+                    bad = bad or ('the item is removed from the queue before it has been handed to the promise: if constructing the value in the future throws, the item is in neither place (lost)', tr)
         if not bad and (npark == 0 or ndel == 0):
             bad = ('pop lost its park / deliver outcomes', trs[0] if trs else [])
         ctx.ob(rid, lf, lf['key'], bad is None, 'park xor (resolve once + remove once)' + ('' if not bad else ' -- ' + bad[0]), desc=(bad[0] if bad else None), trace=fmt_trace(bad[1]) if bad else None,
@@ -380,3 +386,40 @@ def void_counter(ctx, db, rid):
                 # max(1, _sz) - 1 (saturating decrement), or a plain decrement guarded by a non-zero test
                 ok = ok and (rhs in ('(call(std::max)-1)',) or bool(re.fullmatch(r'\(local:\w+-1\)', rhs)) or delta_of_write(ws[0]) == -1)
             ctx.ob(rid, f, f['key'], ok, '%s changes the token count by exactly one' % name.split('::')[-1], desc='std_queue<void>::%s does not change the count by one' % name.split('::')[-1])
+
+
+def single_slot(ctx, db, rid):
+    """primitives::single_item_queue (the one-waiter store): inserting into the occupied slot must be refused by an exception in every
+    build configuration; std::optional::emplace on an engaged optional destroys the stored element (a parked pop / an item is lost)"""
+    ctx.rule(rid, 'PATHS', 'primitives::single_item_queue::emplace: the slot is filled only on the edge where has_value() tested false, and the occupied edge throws '
+             '(an assertion is no guard: NDEBUG builds would silently overwrite the parked element)', floor=1)
+    fns = db.fns('cocls::primitives::single_item_queue::emplace')
+    if not fns:
+        raise Broken('single_item_queue::emplace not instantiated')
+    T = htracer(db)
+    seen = set()
+    for f in fns:
+        if f['key'] in seen:
+            continue
+        seen.add(f['key'])
+        trs = T.traces(f)
+        ctx.paths(rid, len(trs))
+        bad = None; nthrow = 0
+        for tr in trs:
+            occ = None
+            for i, it in enumerate(tr):
+                if it.k == 'branch' and occ is None:
+                    ce = cond_event(tr, i)
+                    if ce is not None and ce.k == 'call' and norm(ce.get('callee') or '') in ('std::optional::has_value', 'std::optional::operator bool'):
+                        occ = bool(it.val)
+            em = [c for c in calls(tr) if norm(c.get('callee') or '') == 'std::optional::emplace']
+            if em and occ is not False:
+                bad = bad or ('the slot is overwritten on a path that did not see it empty', tr)
+            if occ is True:
+                if any(it.k == 'throw' for it in tr):
+                    nthrow += 1
+                elif live(tr):
+                    bad = bad or ('the occupied edge returns normally', tr)
+        if not bad and nthrow == 0:
+            bad = ('no path refuses an insert into the occupied slot with an exception', trs[0] if trs else [])
+        ctx.ob(rid, f, f['key'], bad is None, 'emplace iff empty, else throw' + ('' if not bad else ' -- ' + bad[0]), desc=bad[0] if bad else None, trace=fmt_trace(bad[1]) if bad else None)
